@@ -860,7 +860,7 @@ void DVectorTrasposedDVectorDotProduct(dvector *v1, dvector *v2, matrix *m)
 {
   size_t i;
   size_t j;
-  if(m->row != v1->size && m->col != v2->size)
+  if(m->row != v1->size || m->col != v2->size)
     ResizeMatrix(m, v1->size, v2->size);
 
   for(i = 0; i < v1->size; i++){
